@@ -267,18 +267,26 @@ theorem entriesCurrent_runFrom (P : Params Q R) (hg : P.genCheck = true) (steps 
 
 /-! ### every response in the cache or in flight is the uncached response of its label -/
 
-/-- `r` is what the uncached handler computes from generation `label` for some (valid) query with key `k` -/
+/-- `r` is what the uncached handler computes from generation `label` for some (valid) query with
+key `k` that gets as far as the cache (a BADVERS reply is sent before the key is even built) -/
 def Justified (P : Params Q R) (V : Q → Prop) (k : Bytes) (label : Nat) (r : R) : Prop :=
-  ∃ q, V q ∧ P.keyOf q = k ∧ r = P.resp label q
+  ∃ q, V q ∧ P.kindOf q ≠ .badvers ∧ P.keyOf q = k ∧ r = P.resp label q
+
+theorem insertable_ne_badvers {P : Params Q R} {q : Q} (h : insertable P q = true) :
+    P.kindOf q ≠ .badvers := by
+  intro hb
+  simp [insertable, hb] at h
 
 def PhaseOk (P : Params Q R) (V : Q → Prop) (gen : Nat) (q : Q) : Phase R → Prop
   | .fresh => True
   | .acquired g => g ≤ gen
-  | .hit g e => g ≤ e.label ∧ e.label ≤ gen ∧ Justified P V (P.keyOf q) e.label e.rsp
+  | .hit g e => P.kindOf q ≠ .badvers ∧ g ≤ e.label ∧ e.label ≤ gen ∧
+      Justified P V (P.keyOf q) e.label e.rsp
   | .missed g _ => g ≤ gen
   | .computed g r => g ≤ gen ∧ r = P.resp g q
   | .inserted g r => g ≤ gen ∧ r = P.resp g q
-  | .sent o => o.acq ≤ o.label ∧ o.label ≤ gen ∧ Justified P V (P.keyOf q) o.label o.rsp
+  | .sent o => o.acq ≤ o.label ∧ o.label ≤ gen ∧
+      ((P.kindOf q ≠ .badvers ∧ Justified P V (P.keyOf q) o.label o.rsp) ∨ o.rsp = P.resp o.label q)
 
 def FlightOk (P : Params Q R) (V : Q → Prop) (s : St Q R) (f : Flight Q R) : Prop :=
   V f.q ∧ PhaseOk P V s.gen f.q f.phase
@@ -298,7 +306,7 @@ theorem PhaseOk.mono {P : Params Q R} {V : Q → Prop} {g g' : Nat} {q : Q} {ph 
   cases ph with
   | fresh => trivial
   | acquired a => exact Nat.le_trans h hle
-  | hit a e => exact ⟨h.1, Nat.le_trans h.2.1 hle, h.2.2⟩
+  | hit a e => exact ⟨h.1, h.2.1, Nat.le_trans h.2.2.1 hle, h.2.2.2⟩
   | missed a l => exact Nat.le_trans h hle
   | computed a r => exact ⟨Nat.le_trans h.1 hle, h.2⟩
   | inserted a r => exact ⟨Nat.le_trans h.1 hle, h.2⟩
@@ -341,11 +349,12 @@ theorem inv_step (P : Params Q R) (V : Q → Prop) (hg : P.genCheck = true) (s :
           exact this
         split
         · exact inv_setPhase h hm hok
-        · split
+        · rename_i hnb
+          split
           · rename_i e he
             have hmem := cacheGet_mem he
             have hl : e.label = s.gen := h.cur _ hmem
-            refine inv_setPhase h hm ⟨?_, ?_, h.just _ hmem⟩
+            refine inv_setPhase h hm ⟨hnb, ?_, ?_, h.just _ hmem⟩
             · rw [hl]; exact hok
             · rw [hl]; exact Nat.le_refl _
           · exact inv_setPhase h hm hok
@@ -381,6 +390,7 @@ theorem inv_step (P : Params Q R) (V : Q → Prop) (hg : P.genCheck = true) (s :
         · rename_i hc
           rw [hg] at hc
           have hgen : g = s.gen := by simp at hc; exact hc.2
+          have hins : insertable P f.q = true := by simp at hc; exact hc.1
           refine ⟨?_, ?_, h1.fl⟩
           · intro p hp
             rcases mem_cachePut hp with rfl | hp
@@ -388,7 +398,7 @@ theorem inv_step (P : Params Q R) (V : Q → Prop) (hg : P.genCheck = true) (s :
             · exact h.cur p hp
           · intro p hp
             rcases mem_cachePut hp with rfl | hp
-            · exact ⟨f.q, (h.fl f hm).1, rfl, hok.2⟩
+            · exact ⟨f.q, (h.fl f hm).1, insertable_ne_badvers hins, rfl, hok.2⟩
             · exact h.just p hp
         · exact h1
       all_goals exact h
@@ -400,17 +410,18 @@ theorem inv_step (P : Params Q R) (V : Q → Prop) (hg : P.genCheck = true) (s :
       have hm := List.mem_of_getElem? hf
       split
       · rename_i g e hph
-        have hok : g ≤ e.label ∧ e.label ≤ s.gen ∧ Justified P V (P.keyOf f.q) e.label e.rsp := by
+        have hok : P.kindOf f.q ≠ .badvers ∧ g ≤ e.label ∧ e.label ≤ s.gen ∧
+            Justified P V (P.keyOf f.q) e.label e.rsp := by
           have := (h.fl f hm).2
           rw [hph] at this
           exact this
-        exact inv_setPhase h hm hok
+        exact inv_setPhase h hm ⟨hok.2.1, hok.2.2.1, Or.inl ⟨hok.1, hok.2.2.2⟩⟩
       · rename_i g r hph
         have hok : g ≤ s.gen ∧ r = P.resp g f.q := by
           have := (h.fl f hm).2
           rw [hph] at this
           exact this
-        exact inv_setPhase h hm ⟨Nat.le_refl _, hok.1, f.q, (h.fl f hm).1, rfl, hok.2⟩
+        exact inv_setPhase h hm ⟨Nat.le_refl _, hok.1, Or.inr hok.2⟩
       all_goals exact h
     · exact h
   | reload =>
@@ -430,5 +441,120 @@ theorem inv_runFrom (P : Params Q R) (V : Q → Prop) (hg : P.genCheck = true) (
     intro s hv h
     exact ih _ (fun x hx => hv x (List.mem_cons_of_mem _ hx))
       (inv_step P V hg s st (hv st List.mem_cons_self) h)
+
+
+/-! ### sequential histories -/
+
+theorem getElem?_last {α} (fs : List α) (x : α) : (fs ++ [x])[fs.length]? = some x := by simp
+
+/-- the uncached response is determined by the key (on valid queries) -/
+def KeyDetermines (P : Params Q R) (V : Q → Prop) : Prop :=
+  ∀ g q q', V q → V q' → P.kindOf q ≠ .badvers → P.kindOf q' ≠ .badvers →
+    P.keyOf q = P.keyOf q' → P.resp g q = P.resp g q'
+
+theorem run_query (P : Params Q R) (V : Q → Prop) (hdet : KeyDetermines P V)
+    (g : Nat) (c : List (Bytes × Entry R)) (fs : List (Flight Q R)) (q : Q) (hv : V q)
+    (h : Inv P V ⟨g, c, fs⟩) :
+    ∃ c' o, runFrom P ⟨g, c, fs⟩ (querySteps fs.length q) = ⟨g, c', fs ++ [⟨q, .sent o⟩]⟩ ∧
+      o.rsp = P.resp g q := by
+  simp only [querySteps, runFrom, List.foldl_cons, List.foldl_nil]
+  have e1 : step P ⟨g, c, fs⟩ (.start q) = ⟨g, c, fs ++ [⟨q, .fresh⟩]⟩ := rfl
+  rw [e1]
+  have e2 : step P ⟨g, c, fs ++ [⟨q, .fresh⟩]⟩ (.acquire fs.length) = ⟨g, c, fs ++ [⟨q, .acquired g⟩]⟩ := by
+    simp [step, setPhase]
+  rw [e2]
+  by_cases hb : P.kindOf q = .badvers
+  · have e3 : step P ⟨g, c, fs ++ [⟨q, .acquired g⟩]⟩ (.lookup fs.length) = ⟨g, c, fs ++ [⟨q, .missed g false⟩]⟩ := by
+      simp [step, setPhase, hb]
+    rw [e3]
+    have e4 : step P ⟨g, c, fs ++ [⟨q, .missed g false⟩]⟩ (.compute fs.length) = ⟨g, c, fs ++ [⟨q, .computed g (P.resp g q)⟩]⟩ := by
+      simp [step, setPhase]
+    rw [e4]
+    have e5 : step P ⟨g, c, fs ++ [⟨q, .computed g (P.resp g q)⟩]⟩ (.insert fs.length) = ⟨g, c, fs ++ [⟨q, .inserted g (P.resp g q)⟩]⟩ := by
+      simp [step, setPhase, insertable, hb]
+    rw [e5]
+    refine ⟨c, ⟨P.resp g q, g, g, false⟩, ?_, rfl⟩
+    simp [step, setPhase]
+  · cases hc : cacheGet c (P.keyOf q) with
+    | none =>
+      have e3 : step P ⟨g, c, fs ++ [⟨q, .acquired g⟩]⟩ (.lookup fs.length) = ⟨g, c, fs ++ [⟨q, .missed g true⟩]⟩ := by
+        simp [step, setPhase, hb, hc]
+      rw [e3]
+      have e4 : step P ⟨g, c, fs ++ [⟨q, .missed g true⟩]⟩ (.compute fs.length) = ⟨g, c, fs ++ [⟨q, .computed g (P.resp g q)⟩]⟩ := by
+        simp [step, setPhase]
+      rw [e4]
+      by_cases hi : insertable P q = true
+      · have e5 : step P ⟨g, c, fs ++ [⟨q, .computed g (P.resp g q)⟩]⟩ (.insert fs.length) =
+            ⟨g, cachePut c (P.keyOf q) ⟨g, P.resp g q⟩, fs ++ [⟨q, .inserted g (P.resp g q)⟩]⟩ := by
+          simp [step, setPhase, hi]
+        rw [e5]
+        refine ⟨cachePut c (P.keyOf q) ⟨g, P.resp g q⟩, ⟨P.resp g q, g, g, false⟩, ?_, rfl⟩
+        simp [step, setPhase]
+      · have e5 : step P ⟨g, c, fs ++ [⟨q, .computed g (P.resp g q)⟩]⟩ (.insert fs.length) =
+            ⟨g, c, fs ++ [⟨q, .inserted g (P.resp g q)⟩]⟩ := by
+          simp [step, setPhase, hi]
+        rw [e5]
+        refine ⟨c, ⟨P.resp g q, g, g, false⟩, ?_, rfl⟩
+        simp [step, setPhase]
+    | some e =>
+      have e3 : step P ⟨g, c, fs ++ [⟨q, .acquired g⟩]⟩ (.lookup fs.length) = ⟨g, c, fs ++ [⟨q, .hit g e⟩]⟩ := by
+        simp [step, setPhase, hb, hc]
+      rw [e3]
+      have e4 : step P ⟨g, c, fs ++ [⟨q, .hit g e⟩]⟩ (.compute fs.length) = ⟨g, c, fs ++ [⟨q, .hit g e⟩]⟩ := by
+        simp [step]
+      rw [e4]
+      have e5 : step P ⟨g, c, fs ++ [⟨q, .hit g e⟩]⟩ (.insert fs.length) = ⟨g, c, fs ++ [⟨q, .hit g e⟩]⟩ := by
+        simp [step]
+      rw [e5]
+      have hmem := cacheGet_mem hc
+      have hl : e.label = g := h.cur _ hmem
+      obtain ⟨q', hv', hnb', hk, hr⟩ := h.just _ hmem
+      refine ⟨c, ⟨e.rsp, e.label, g, true⟩, ?_, ?_⟩
+      · simp [step, setPhase]
+      · show e.rsp = P.resp g q
+        rw [hr, hl]
+        exact hdet g q' q hv' hv hnb' hb hk
+
+/-- `sentList` of a state whose flights have all been answered -/
+def AllSent (s : St Q R) (rs : List R) : Prop := sentList s = rs.map some
+
+theorem seq_from (P : Params Q R) (V : Q → Prop) (hg : P.genCheck = true) (hdet : KeyDetermines P V) :
+    ∀ (h : List (Item Q)) (s : St Q R) (rs : List R),
+      (∀ q, Item.query q ∈ h → V q) → Inv P V s → AllSent s rs →
+      AllSent (runFrom P s (seqSteps s.flights.length h)) (rs ++ uncachedSeq P s.gen h) := by
+  intro h
+  induction h with
+  | nil => intro s rs _ _ ha; simpa [seqSteps, uncachedSeq, runFrom] using ha
+  | cons it t ih =>
+    intro s rs hv hinv ha
+    cases it with
+    | query q =>
+      obtain ⟨g, c, fs⟩ := s
+      have hvq : V q := hv q List.mem_cons_self
+      obtain ⟨c', o, hrun, ho⟩ := run_query P V hdet g c fs q hvq hinv
+      have hinv' : Inv P V (runFrom P ⟨g, c, fs⟩ (querySteps fs.length q)) := by
+        refine inv_runFrom P V hg _ _ ?_ hinv
+        intro st hst
+        simp only [querySteps, List.mem_cons, List.not_mem_nil, or_false] at hst
+        rcases hst with rfl | rfl | rfl | rfl | rfl | rfl <;> first | exact hvq | trivial
+      simp only [seqSteps, uncachedSeq]
+      rw [runFrom, List.foldl_append]
+      change AllSent (runFrom P (runFrom P ⟨g, c, fs⟩ (querySteps fs.length q)) (seqSteps (fs.length + 1) t)) _
+      rw [hrun] at hinv' ⊢
+      have ha' : AllSent (⟨g, c', fs ++ [⟨q, .sent o⟩]⟩ : St Q R) (rs ++ [P.resp g q]) := by
+        unfold AllSent sentList at ha ⊢
+        simp only [List.map_append, List.map_cons, List.map_nil]
+        rw [ha, ho]
+      have := ih ⟨g, c', fs ++ [⟨q, .sent o⟩]⟩ (rs ++ [P.resp g q])
+        (fun q' hq' => hv q' (List.mem_cons_of_mem _ hq')) hinv' ha'
+      simpa [List.append_assoc] using this
+    | reload =>
+      simp only [seqSteps, uncachedSeq]
+      have hinv' := inv_step P V hg s .reload trivial hinv
+      exact ih (step P s .reload) rs (fun q' hq' => hv q' (List.mem_cons_of_mem _ hq')) hinv' ha
+    | evict k =>
+      simp only [seqSteps, uncachedSeq]
+      have hinv' := inv_step P V hg s (.evict k) trivial hinv
+      exact ih (step P s (.evict k)) rs (fun q' hq' => hv q' (List.mem_cons_of_mem _ hq')) hinv' ha
 
 end DnsVerif.Cache
